@@ -139,6 +139,19 @@ Definition write_goes_out (x : istate) : bool :=
   (get (i_local_seq x) (i_local_epoch x) <=? max_seq) &&
   match key_inputs x with Some _ => true | None => false end.
 
+(* State12.ShouldWrapConnectionID: records are sent as tls12_cid iff a remote CID is set *)
+Definition wraps_cid (x : istate) : bool :=
+  match i_remote_cid x with [] => false | _ => true end.
+
+(* What the peer does with a record the corrupted side labels epoch 0 (conn.go
+   handleIncomingPacket: epoch 0 is not decrypted).  A plain application_data record decodes and
+   is refused by handleApplicationDataRecord with a fatal unexpected_message alert (sent protected,
+   in the peer's epoch), which closes the corrupted side if it can read it.  A tls12_cid record
+   does not decode as record content ("invalid content type"): an unprotected record that does
+   not decode is silently discarded, nobody alerts, and the other direction keeps working. *)
+Definition draws_fatal_alert (x : istate) : bool :=
+  (i_local_epoch x =? 0) && write_goes_out x && negb (wraps_cid x).
+
 Definition corrupt_ok (c : corrupt_case) : bool :=
   let '(input, dec_ok, dec, peer, resume_ok, x2p, p2x) := c in
   match input with
@@ -152,9 +165,9 @@ Definition corrupt_ok (c : corrupt_case) : bool :=
     match gen_internal dec, gen_internal peer with
     | Some x, Some t =>
         resume_ok && Bool.eqb x2p (delivers x t) &&
-        (* a record sent in epoch 0 is answered by the peer with a fatal alert, which closes
-           the resumed side when it can read it; it cannot read anything otherwise *)
-        Bool.eqb p2x (delivers t x && negb ((i_local_epoch x =? 0) && write_goes_out x))
+        (* the corrupted side writes first; if that draws a fatal alert it is closed before the
+           peer's record arrives (when it cannot read the alert it cannot read the record either) *)
+        Bool.eqb p2x (delivers t x && negb (draws_fatal_alert x))
     | None, Some _ => negb resume_ok
     | _, None => false
     end
